@@ -46,7 +46,7 @@ static int nscript;
 
 static uv_loop_t loop;
 static uv_timer_t far_timer;
-static int logging, no_ring;
+static int logging, no_ring, multi;
 /* scripted batches of the current run: entries (fd, events), batch boundaries */
 static struct epoll_event* sb_ev;
 static int* sb_end;
@@ -311,6 +311,14 @@ static int fd_idle(int fd) {
   return 1;
 }
 
+static int fd_taken(int fd) {
+  int i;
+  if (multi) return 0;
+  for (i = 0; i < nobj; i++)
+    if (objs[i].fd == fd && !objs[i].closing) return 1;
+  return 0;
+}
+
 static int fd_open(int fd) { return fd >= FD_LO && fd < FD_HI && slots[fd].open; }
 
 static struct obj* live(int id, int poll) {
@@ -390,6 +398,7 @@ static void do_op(char* line) {
     peer_op(a, b);
   } else if (strcmp(cmd, "pinit") == 0 && n == 2) {
     int r;
+    if (fd_taken(a)) { printf("refused\n"); obs(); return; }
     o = &objs[nobj];
     memset(o, 0, sizeof *o);
     r = nobj < MAXOBJ - 1 ? uv_poll_init(&loop, &o->p, a) : UV_ENOMEM;
@@ -410,7 +419,7 @@ static void do_op(char* line) {
     if ((o = live(a, 1)) != NULL) { uv_close((uv_handle_t*) &o->p, close_cb); o->closing = 1; printf("ret 0\n"); }
     else printf("refused\n");
   } else if (strcmp(cmd, "ioinit") == 0 && n == 2) {
-    if (nobj < MAXOBJ - 1) {
+    if (nobj < MAXOBJ - 1 && !fd_taken(a)) {
       o = &objs[nobj];
       memset(o, 0, sizeof *o);
       o->poll = 0; o->fd = a; o->clean = 1;
@@ -459,14 +468,16 @@ int main(void) {
       char* p = strstr(line, "ring=");
       if (p != NULL) ring = atoi(p + 5);
       no_ring = !ring;
+      p = strstr(line, "multi=");
+      if (p != NULL) multi = atoi(p + 6);
       if (uv_loop_init(&loop)) { printf("#loop-init-failed\n"); return 3; }
       uv_timer_init(&loop, &far_timer);
       uv_timer_start(&far_timer, far_cb, 1000000000, 0);
       uv_run(&loop, UV_RUN_NOWAIT);   /* registers libuv's own wakeup watcher */
       started = 1;
       logging = 1;
-      printf("cfg ring=%d internal=%u nw=%u\n", ((uv__loop_internal_fields_t*) loop.internal_fields)->ctl.ringfd != -1,
-             loop.nfds, loop.nwatchers);
+      printf("cfg ring=%d internal=%u nw=%u multi=%d\n", ((uv__loop_internal_fields_t*) loop.internal_fields)->ctl.ringfd != -1,
+             loop.nfds, loop.nwatchers, multi);
       continue;
     }
     if (!started) { printf("bad-op\n"); continue; }
